@@ -433,7 +433,7 @@ def bootlinks(cfg=None, reopen_ok=True):
     other = st.lists(st.one_of(add_fp(length=SMALL_LEN, d=st.just(0)), add_fp(length=st.sampled_from([7000, 10000, 20000]), d=st.just(0), file=st.just(False)), add_dir(d=st.just(0))),
                      min_size=0, max_size=3)
     on0 = lambda o: dict(o, b=0)
-    boots = st.lists(st.builds(lambda o, ld: dict(o, b=0, media=0, load=ld), add_boot, st.sampled_from([None, None, 4, 1, 8])), min_size=1, max_size=2)
+    boots = st.integers(0, 3).flatmap(lambda n: st.lists(st.builds(lambda o, ld: dict(o, b=0, media=0, load=ld), add_boot, st.sampled_from([None, None, 4, 4, 1, 8])), min_size=min(n, 1) + 1, max_size=min(n, 1) + 1))
     prelinks = st.lists(add_link.map(on0), min_size=0, max_size=2)
     unlink_iso = st.just([{'k': 'rm_link', 'b': 0, 'j': 0}])
     mid_choices = [st.just([]), st.just([{'k': 'write'}])]
@@ -443,7 +443,7 @@ def bootlinks(cfg=None, reopen_ok=True):
                     link_cat, rm_catlink, rm_catlink]
     if reopen_ok:
         body_choices += [reopen]
-    body = st.lists(st.one_of(*body_choices), min_size=2, max_size=12)
+    body = st.builds(lambda first, rest: first + rest, st.lists(add_fp(length=st.sampled_from([5000, 3]), d=st.just(0), file=st.just(False)), min_size=0, max_size=1), st.lists(st.one_of(*body_choices), min_size=2, max_size=12))
     # 'hideall': every name of the boot file goes, then (after a reopen) El Torito itself - the content's last reference
     hideall = st.sampled_from([[], [], [{'k': 'rm_link', 'b': 0, 'j': 0}] * 4 + ([{'k': 'reopen'}] if reopen_ok else [{'k': 'write'}]) + [{'k': 'rm_boot'}, {'k': 'write'}]])
     return program(c, st.builds(lambda f, o, b, p, u, m, h, t: [f] + o + b + p + u + m + h + t, bootfile, other, boots, prelinks, unlink_iso, st.one_of(*mid_choices), hideall, body))
